@@ -44,6 +44,56 @@ def forge(rng, st, req, body, mac, auth_flag, enc, value, **over):
     return None
 
 
+def lossy_then_forged(mode, peer, drop):
+    """real client without engine id; the probes listed in `drop` are lost, refresh() is retried; then a get is answered
+    with an unauthenticated reply for the empty user. Returns the outcome of that get."""
+    import agent as ag
+    from props import c13
+    st = peer.state
+    st0 = ag.V3AgentState(b"", boots=0, time=0, user="")
+    seen = {"probes": 0}
+
+    def plan(dg):
+        outer = ber.decode_message(dg)
+        req = (st0 if outer.get("user") == b"" and not outer["flags"] & 3 else st).parse_request(dg)
+        if req["pdu_type"] == 0 and not req["varbinds"]:
+            k = seen["probes"]
+            seen["probes"] += 1
+            if k in drop:
+                return []
+            if req["engine_id"] == b"":
+                return [st.report(req["request_id"], req["msg_id"], user=req["user"])]
+            return [st.report(req["request_id"], req["msg_id"], auth=bool(req["flags"] & 1))]
+        # the forged answer: no MAC, no auth flag, empty user, the right engine id / msgID / request-id
+        body = ber.scoped_pdu(st.engine_id, b"", ber.pdu(2, req["request_id"], 0, 0, [ber.varbind((1, 3, 6, 1), ber.OCT(b"FORGED"))]))
+        return [ber.msg_v3(req["msg_id"], 0, st.engine_id, st.boots, st.time, b"", b"", b"", body)]
+    kw = dict(engine_id=None, user=c13.client_user(st), timeout=0.15)
+    if mode == "sync":
+        from gufo.snmp.sync_client import SnmpSession
+        agent = e2e.ThreadAgent(lambda dg: [(0, x) for x in plan(dg)])
+        try:
+            sess = SnmpSession("127.0.0.1", port=agent.port, **kw)
+            for _ in range(len(drop) + 1):
+                if e2e.ncall(sess.refresh)[0] == "ok":
+                    break
+            return e2e.ncall(lambda: sess.get("1.3.6.1"))
+        finally:
+            agent.stop = True
+
+    async def main(port):
+        from gufo.snmp.async_client import SnmpSession
+        sess = SnmpSession("127.0.0.1", port=port, **kw)
+        for _ in range(len(drop) + 1):
+            try:
+                await sess.refresh()
+                break
+            except Exception:  # noqa: BLE001
+                pass
+        return await sess.get("1.3.6.1")
+    r, _ = e2e.run_async(main, plan)
+    return r
+
+
 def class_of(body, mac, auth_flag, enc, priv_cfg):
     return f"{body}:mac={mac}:authflag={int(auth_flag)}:{'encrypted' if enc else 'clear'}:priv-configured={int(bool(priv_cfg))}"
 
@@ -141,6 +191,37 @@ def run(chk, model_ok=True):
                         shown = shown.hex() if isinstance(shown, bytes) else shown
                         fail(f"{s.label}: forged reply with a wrong {field} ({shown} instead of "
                              f"{(getattr(st, field, None) or req.get(field)) if field in ('msg_id', 'request_id') else getattr(st, 'user' if field == 'user' else 'engine_id').hex()}) was delivered", s.line())
+    # a message that claims another security model is not a USM message at all: it must not be delivered,
+    # whatever else matches (models equal to 3 modulo 256 / 2^16 are the interesting ones)
+    for peer in (sessions.rand_v3_peer(rng, auth=1, priv=0), sessions.rand_v3_peer(rng, auth=2, priv=2)):
+        st = peer.state
+        s = sessions.Sess(env, peer, rng)
+        all_sess.append(s)
+        for model in (259, 515, 65539, 0x7fffff03, -253, 0, 1, 2, 4):
+            rec = s.send("get", "1.3.6.1")
+            req = s.conv.req
+            if rec["result"][0] != "ok" or not req or "request_id" not in req:
+                continue
+            body = ber.scoped_pdu(st.engine_id, b"", ber.pdu(2, req["request_id"], 0, 0, [ber.varbind((1, 3, 6, 1), ber.INT(31337))]))
+            dg = ber.msg_v3(req["msg_id"], 0, st.engine_id, st.boots, st.time, st.user, b"", b"", body, security_model=model)
+            n += 1
+            r = s.recv("get", [dg])["result"]
+            if r[0] == "ok":
+                fail(f"{s.label}: a reply with msgSecurityModel {model} (not USM) and no authentication was delivered as {r[1]!r}", s.line())
+    # the clients' discovery with lost probes and retries must end with the user's keys installed: afterwards an
+    # unauthenticated reply for the empty user is not for this session
+    from props import c13
+    for mode in ("sync", "async"):
+        for auth in (1, 2):
+            # (a user with a non-empty name: for the empty name the forged reply would match and fall under D12)
+            peer = e2e.Peer("v3", auth=auth, priv=rng.choice([0, 1, 2]), user="alice", auth_kt="localized", priv_kt="localized")
+            n += 1
+            r = lossy_then_forged(mode, peer, rng.choice([(0,), (0, 1), (1,)]))
+            if r[0] == "ok":
+                fail(f"{mode} client ({peer.label}): after a discovery with lost probes, an unauthenticated reply with an empty user "
+                     f"name was delivered as {r[1]!r}", f"# {mode} {peer.label} lossy discovery + forged reply")
+            elif r[1] not in ("TimeoutError", "BlockingIOError"):
+                chk.notes.append(f"lossy discovery + forged reply ended as {r[1]}")
     for fid, classes in sorted(reproduced.items()):
         f = [x for x in chk.findings() if x["id"] == fid][0]
         chk.known_finding(f"{fid}: {f['what']} [{len(classes)} forgery classes reproduced, e.g. {sorted(classes)[0]}]")
